@@ -204,6 +204,21 @@ def check_single(ctx, case):
         for X in PROPS:
             judge(ctx, 'single:%r' % (spec,), obj, [spec], X, T, 'single correlation %s' % _short(spec))
     judge_array(ctx, obj, [spec], 'single correlation %s' % _short(spec))
+    # a merge that is refused (conflicting data, overwrite not allowed) must not move the range: afterwards the object reports
+    # the range it had, and inside it every property it has data for is still a finite number
+    status, before, after = TG.refused_update(obj, spec)
+    ctx.count()
+    ctx.event('refused-update:%s' % status)
+    if status == 'refused':
+        got = obj.get_range()
+        if (got is None) != (want is None) or (got is not None and tuple(got) != want):
+            ctx.fail('range-changed-by-refused-update', 'get_range() = %r after a refused update, declared %r (%s)' % (got, want, _short(spec)))
+        else:
+            for T in temps_for([eff])[:8]:
+                for X in PROPS:
+                    judge(ctx, 'single-after-refused-update:%r' % (spec,), obj, [spec], X, T, 'single correlation %s after a refused update' % _short(spec))
+    elif status not in ('no-conflict-possible',):
+        ctx.fail('conflicting-update-not-refused:%s' % status, 'update with conflicting data (no overwrite) on %s: %s' % (_short(spec), status))
 
 
 def _short(s):
